@@ -3,17 +3,53 @@
 
 #include <cstring> // for std::memcmp
 #include <limits> // for std::numeric_limits
-#include <regex> // for std::regex
 #include <string_view> // for std::string_view
 
 namespace sockpuppet {
 
 namespace {
 
-bool IsServiceNumeric(std::string const &serv)
+// the parsing below is done with plain scans rather than std::regex, whose
+// recursive matcher exhausts the stack on long inputs
+
+bool IsDigit(char c)
 {
-  static std::regex const reNumeric(R"(^\-?\d+$)");
-  return std::regex_match(serv, reNumeric);
+  return ((c >= '0') && (c <= '9'));
+}
+
+bool IsWord(char c)
+{
+  return (IsDigit(c) ||
+          ((c >= 'a') && (c <= 'z')) ||
+          ((c >= 'A') && (c <= 'Z')) ||
+          (c == '_'));
+}
+
+bool IsDigits(std::string_view str)
+{
+  if(str.empty()) {
+    return false;
+  }
+  for(char c : str) {
+    if(!IsDigit(c)) {
+      return false;
+    }
+  }
+  return true;
+}
+
+bool HasLineBreak(std::string_view str)
+{
+  return (str.find_first_of("\n\r") != std::string_view::npos);
+}
+
+// numeric service of type [-]digits
+bool IsServiceNumeric(std::string_view serv)
+{
+  if(!serv.empty() && (serv.front() == '-')) {
+    serv.remove_prefix(1);
+  }
+  return IsDigits(serv);
 }
 
 void CheckServiceNumericOutOfRange(std::string const &serv)
@@ -23,6 +59,62 @@ void CheckServiceNumericOutOfRange(std::string const &serv)
      port > std::numeric_limits<uint16_t>::max()) {
     throw std::runtime_error("numeric service " + serv + " out of range");
   }
+}
+
+// split off "host" from "host[/path]"; the path must be a single line
+bool TrimPath(std::string_view &uri)
+{
+  auto host = uri.substr(0, uri.find('/'));
+  if(host.empty()) {
+    return false;
+  }
+  auto path = uri.substr(host.size());
+  if(!path.empty()) {
+    path.remove_prefix(1); // skip the '/'
+  }
+  if(HasLineBreak(path)) {
+    return false;
+  }
+  uri = host;
+  return true;
+}
+
+// split "serv" from "[serv]://host[/path]" and trim the path
+bool TrimServAndPath(std::string_view &uri, std::string_view &serv)
+{
+  size_t servLen = 0U;
+  while((servLen < uri.size()) && IsWord(uri[servLen])) {
+    ++servLen;
+  }
+  if(uri.substr(servLen, 3) == "://") {
+    auto trimmed = uri.substr(servLen + 3);
+    if(TrimPath(trimmed)) {
+      serv = uri.substr(0, servLen);
+      uri = trimmed;
+      return true;
+    }
+  }
+  return TrimPath(uri);
+}
+
+// split "[host]:port" or "host:port"
+bool SplitPort(std::string_view uri, std::string_view &host, std::string_view &port)
+{
+  auto colon = uri.rfind(':');
+  if((colon == std::string_view::npos) || !IsDigits(uri.substr(colon + 1))) {
+    return false;
+  }
+
+  if((colon >= 2U) && (uri.front() == '[') && (uri[colon - 1] == ']') &&
+     !HasLineBreak(uri.substr(1, colon - 2))) {
+    host = uri.substr(1, colon - 2);
+  } else if((colon >= 1U) && (uri.find(':') == colon)) {
+    host = uri.substr(0, colon);
+  } else {
+    return false;
+  }
+  port = uri.substr(colon + 1);
+  return true;
 }
 
 struct UriDissect
@@ -36,31 +128,23 @@ struct UriDissect
     hints.ai_family = AF_UNSPEC;
     hints.ai_flags = AI_PASSIVE;
 
-    std::cmatch match;
-    static std::regex const reServ(R"(((^\w+)?://)?([^/]+)/?.*$)");
-    if(std::regex_match(uri.data(), uri.data() + uri.size(), match, reServ)) {
-      if(match[2].matched) {
-        // URI of type serv://host/path
-        serv = match[2].str();
-      }
+    std::string_view scheme;
+    if(TrimServAndPath(uri, scheme)) {
+      // URI of type serv://host/path
+      serv = scheme;
 
-      // trim serv + path
-      uri = {match[3].first, static_cast<size_t>(match[3].length())};
-
-      static std::regex const rePortBracket(R"(^\[(.*)\]:(\d+$))");
-      static std::regex const rePort(R"((^[^:]+):(\d+$))");
-      if(std::regex_match(uri.data(), uri.data() + uri.size(), match, rePortBracket) ||
-         std::regex_match(uri.data(), uri.data() + uri.size(), match, rePort)) {
+      std::string_view hostView, portView;
+      if(SplitPort(uri, hostView, portView)) {
         // URI of type [IPv6-host]:port or host:port
-        host = match[1].str();
-        serv = match[2].str();
+        host = hostView;
+        serv = portView;
         CheckServiceNumericOutOfRange(serv);
         hints.ai_flags |= AI_NUMERICSERV;
       } else {
         host = uri;
       }
     } else {
-      throw std::logic_error("unexpected regex non-match");
+      throw std::logic_error("unexpected uri format");
     }
   }
 };
